@@ -144,7 +144,7 @@ func c06Graph() *Graph {
 func init() {
 	Register(Meta{
 		ID: "C06", Level: "model_checking", LongCases: true,
-		Rule:        "instrumented build: every `range` over a map in the repository is rewritten to iterate in the order dictated by the explorer (site list in the evidence). Profiles: m=2..4 sibling quantified constraints under one propertyConstraints map, the same nested to depth 2, under or/and/not mixed with plain constraints, with 1-3 prefixes, an `or` of six and a negated `and` of five quantified operands. `go` statements and sync.WaitGroup of the repository are hooked as well: goroutines it starts become scheduler threads whose order is one more deviation. For each profile: pass keys = every order of every YAML key map (all permutations for <=4 keys, unbounded composition); pass others = every other map-range site at deviation bound 1 (2n rotations/reversals for maps with >4 keys); thorough adds pass all2 = every site at bound 2 (all profiles but the two-level one). Oracle: all executions of Validate(profile, data, fixed clock) yield one report byte string and all executions of GenerateRego after a counter reset yield one code byte string. An uninstrumented pass repeats every profile 30x in one process (Go's own random map order) as a cross-check that the seam is complete. Pass clocks: the repository's time.Now() is routed through a seam that jumps by an hour on every reading; for 9 configured clock values (ordinary, zero Time, Unix epoch in two locations, 1 ns after it, 1960, 9999, two non-UTC zones) x dateCreated on/off, three consecutive identical calls must give identical bytes. Pass history: for 13 profiles x 8 documents chosen to collide on cheap cache keys and shared tables (same profile name / different content, same node ids / different values, failing inputs, a prefix rebound between profiles, the name of a built-in prefix bound to another namespace, a prefix declared by one profile and used undeclared by another, two long profiles that differ late), every ordered pair of Validate calls is executed in one process and each result must equal the result the same call gave before (a call's bytes must not depend on the call made before it).",
+		Rule:        "instrumented build: every `range` over a map in the repository is rewritten to iterate in the order dictated by the explorer (site list in the evidence). Profiles: m=2..4 sibling quantified constraints under one propertyConstraints map, the same nested to depth 2, under or/and/not mixed with plain constraints, with 1-3 prefixes, an `or` of six and a negated `and` of five quantified operands. `go` statements and sync.WaitGroup of the repository are hooked as well: goroutines it starts become scheduler threads whose order is one more deviation. For each profile: pass keys = every order of every YAML key map (all permutations for <=4 keys, unbounded composition); pass others = every other map-range site at deviation bound 1 (2n rotations/reversals for maps with >4 keys); thorough adds pass all2 = every site at bound 2 (all profiles but the two-level one). Oracle: all executions of Validate(profile, data, fixed clock) yield one report byte string and all executions of GenerateRego after a counter reset yield one code byte string. An uninstrumented pass repeats every profile 30x in one process (Go's own random map order) as a cross-check that the seam is complete. Pass gencode: for 3 profiles x 11 profile names (empty, 63/64/65/100/300 characters, non-ASCII, punctuation) the code generated by two fresh processes and by this process after a counter reset must be one byte string. Pass clocks: the repository's time.Now() is routed through a seam that jumps by an hour on every reading; for 9 configured clock values (ordinary, zero Time, Unix epoch in two locations, 1 ns after it, 1960, 9999, two non-UTC zones) x dateCreated on/off, three consecutive identical calls must give identical bytes. Pass history: for 13 profiles x 8 documents chosen to collide on cheap cache keys and shared tables (same profile name / different content, same node ids / different values, failing inputs, a prefix rebound between profiles, the name of a built-in prefix bound to another namespace, a prefix declared by one profile and used undeclared by another, two long profiles that differ late), every ordered pair of Validate calls is executed in one process and each result must equal the result the same call gave before (a call's bytes must not depend on the call made before it).",
 		Assumptions: []string{"nondeterminism inside dependencies (OPA, json-gold, encoding/json) is not behind the seam; the uninstrumented repetition pass is the cross-check for it"},
 	}, c06Gen, c06Run)
 	Register(Meta{
@@ -220,6 +220,68 @@ func c06HistInputs() (profiles []string, datas []string) {
 	}
 	datas = []string{mkd("p1", "p2", false), mkd("p2", "p1", false), mkd("p1", "p1", true), mkd("p3", "p3", false), `{"@graph":[`, `{}`, owner(), names()}
 	return
+}
+
+// ---- pass gencode: generated code is the same in every fresh process ---------------
+
+// c06GenNames: profile names whose treatment (sanitising, truncating, hashing) ends up in the generated package name.
+func c06GenNames() []string {
+	return []string{"", "short", strings.Repeat("n", 63), strings.Repeat("n", 64), strings.Repeat("n", 65), strings.Repeat("long name ", 10), strings.Repeat("x", 300),
+		"Perfil de validación №٣", "規則 v2", "a.b/c:d-e_f", "UPPER lower 123"}
+}
+
+func c06GenProfile(p, n int) string {
+	prof := c06Profiles()[p]
+	if name := c06GenNames()[n]; name != "" {
+		i := strings.Index(prof, "\n")
+		prof = "profile: " + yamlQuote(name) + prof[i:]
+	}
+	return prof
+}
+
+// C06Gen: the generated code for (profile p, name n) as a process computes it first thing (`vworker c06gen p n`).
+func C06Gen(p, n int) string {
+	code, err, pn := GenerateRego(c06GenProfile(p, n))
+	if pn != nil {
+		return "PANIC " + pn.Sig()
+	}
+	if err != nil {
+		return "ERR " + firstLine(err.Error())
+	}
+	return code
+}
+
+func c06RunGenCode(c *Ctx, cs c06Case) {
+	exe, err := os.Executable()
+	if err != nil {
+		panic("harness: " + err.Error())
+	}
+	for n := range c06GenNames() {
+		var outs []string
+		for k := 0; k < 2; k++ {
+			out, err := exec.Command(exe, "c06gen", fmt.Sprint(cs.Profile), fmt.Sprint(n)).Output()
+			if err != nil {
+				panic("harness: fresh-process generation failed: " + err.Error())
+			}
+			outs = append(outs, string(out))
+			c.Eval(1)
+		}
+		GenReset()
+		here := C06Gen(cs.Profile, n)
+		if outs[0] != outs[1] {
+			c.Violate("C06 two fresh processes generate different code for the same profile", fmt.Sprintf("profile %d with name %q\n%s", cs.Profile, c06GenNames()[n], firstDiff(outs[0], outs[1])), nil)
+		} else if here != outs[0] {
+			c.Violate("C06 generated code differs between a fresh process and a process that has compiled other profiles (after a counter reset)", fmt.Sprintf("profile %d with name %q\n%s", cs.Profile, c06GenNames()[n], firstDiff(outs[0], here)), nil)
+		}
+		if strings.HasPrefix(outs[0], "ERR") || strings.HasPrefix(outs[0], "PANIC") {
+			c.Violate("C06 profile with this name is not translated: "+firstLine(outs[0]), c06GenProfile(cs.Profile, n), nil)
+		}
+		c.Outcome("gencode agrees")
+	}
+	c.Count("states", int64(len(c06GenNames())))
+	c.Count("transitions", int64(3*len(c06GenNames())))
+	c.Count("traces_validated_against_impl", int64(3*len(c06GenNames())))
+	c.Nontrivial(fmt.Sprintf("%d/gencode", cs.Profile))
 }
 
 // C06Once runs one call of the history pass (used through `vworker c06once p d` to obtain the result a FRESH process gives).
@@ -315,6 +377,9 @@ func c06Gen(tier string, emit func(c06Case)) {
 		if p < 2 {
 			emit(c06Case{Profile: p, Pass: "clocks"})
 		}
+		if p == 0 || p == 5 || p == 7 {
+			emit(c06Case{Profile: p, Pass: "gencode"})
+		}
 		emit(c06Case{Profile: p, Pass: "keys", Parts: 1})
 		for k := 0; k < 4; k++ {
 			emit(c06Case{Profile: p, Pass: "others", Part: k, Parts: 4})
@@ -332,6 +397,10 @@ func c06Gen(tier string, emit func(c06Case)) {
 var c06DataText string
 
 func c06Run(c *Ctx, cs c06Case) {
+	if cs.Pass == "gencode" {
+		c06RunGenCode(c, cs)
+		return
+	}
 	if cs.Pass == "history" {
 		c06RunHistory(c, cs)
 		return
